@@ -317,13 +317,28 @@ def xgf_correspondence(ctx):
     gfpx = B.gfpx
     reqs, impl, inputs = [], [], []
 
+    def guarded(f):
+        """run a call of the real code under the CPU-time watchdog of props/c23.py"""
+        import signal
+        if B._HAVE_ALARM:
+            signal.setitimer(signal.ITIMER_VIRTUAL, B.CALL_TIMEOUT)
+        try:
+            return f()
+        except B.RealCodeTimeout:
+            return 'Timeout'
+        except Exception as exc:  # ValueError expected for reducible moduli
+            return type(exc).__name__
+        finally:
+            if B._HAVE_ALARM:
+                signal.setitimer(signal.ITIMER_VIRTUAL, 0)
+
     def one(p, a):
         cls = gfpx.GFpX(p)
-        try:
+
+        def call():
             F = finfields.xGF(cls(O.to_int(p, a)))
-            obs = f'{F.order}|{F.ext_deg}'
-        except Exception as exc:  # ValueError expected for reducible moduli
-            obs = type(exc).__name__
+            return f'{F.order}|{F.ext_deg}'
+        obs = guarded(call)
         lines = [f'xgf {p} {B.fmtL(a)}']
         if p == 2:
             lines.append(f'b.xgf {O.to_int(2, a)}')
@@ -343,7 +358,9 @@ def xgf_correspondence(ctx):
             d = rng.randrange(1, 7)
             a = [rng.randrange(p) for _ in range(d)] + [rng.randrange(1, p)]
             if rng.random() < 0.4:       # make irreducible inputs frequent: ask the real search for one
-                a = list(gfpx.GFpX(p).next_irreducible(O.to_int(p, a[:-1] + [1])))
+                r = guarded(lambda: list(gfpx.GFpX(p).next_irreducible(O.to_int(p, a[:-1] + [1]))))
+                if isinstance(r, list):
+                    a = r
             one(p, a)
     model = B.drive(reqs)
     ctx.compare('xgf', impl, model, inputs)
